@@ -340,6 +340,7 @@ func newRTPEncoder(
 			PayloadType:           forma.PayloadTyp,
 			SSRC:                  ssrc,
 			InitialSequenceNumber: initialSequenceNumber,
+			PayloadMaxSize:        rtpMaxPayloadSize,
 		}
 		err := wrapped.Init()
 		if err != nil {
